@@ -502,6 +502,11 @@ func (r *Range) makeString(sb *strings.Builder) {
 	}
 
 	if r.TmPoint2 == nil {
+		if r.TmPoint1 == nil {
+			// "RANGE [": the grammar accepts the opening bracket with no time point behind it
+			sb.WriteString(" [")
+			return
+		}
 		sb.WriteString(" ")
 		sb.WriteString(r.TmPoint1.String())
 	} else {
